@@ -1,14 +1,19 @@
-(* C02 - Every allocation candidate can be claimed exactly as returned.   PARTIAL.
+(* C02 - Every allocation candidate can be claimed exactly as returned.
    Proved for the code model (candidates_gen covers both the observed and the all-anchors result):
    providers exist, every supplying provider has its summary.  Proved for the specification's candidates
    (which the check compares with the application's on every generated case): amounts add up, groups are placed
-   in full, and the capacity check of the write path (Model/Txn.v:check_capacity) accepts the candidate.
+   in full, and the capacity check of the write path (Model/Txn.v:check_capacity) accepts the candidate,
    and the whole claim - PUT /allocations/{k} of the model for a new consumer k - is answered 204 in every
-   reachable state.  Not proved: claimability directly for the code model's candidates (it follows where code
-   model = specification, which is proved for the sharing-free suffixed-only fragment, C03_suffixed_only_sound,
-   and compared on every generated case elsewhere); the check also claims every returned candidate on the
-   real application. *)
-From PV Require Import Proofs.Defs Spec.CandSpec Proofs.C02 Proofs.C02m Proofs.C02c.
+   reachable state.
+   Proved DIRECTLY FOR THE CODE MODEL'S CANDIDATES too (Proofs/C02s.v, through the soundness of the search for all
+   tables, C03_sound / C03_sound_reachable): whatever `candidates` returns as a candidate list - sharing providers
+   included - claimed as returned for a new consumer from microversion 1.28, is answered 204 in every reachable state
+   (C02_code_claimable_reachable; no hypothesis on the database is left), the claim is a legal request
+   (C02_code_claim_request_wf) and the state after it is again reachable.  One hypothesis on the query: the unsuffixed
+   group names every class once (un_rcs_nodup) - derived for every accepted query string (C03_accepted_un_rcs_nodup).
+   Not covered: claims below 1.28 (no consumer_generation in the request); the KeyError / order-dependent answers of
+   the search (no candidate list is returned); the check also claims every returned candidate on the real application. *)
+From PV Require Import Proofs.Defs Spec.CandSpec Proofs.C02 Proofs.C02m Proofs.C02c Proofs.C03s Proofs.C03u Proofs.C03w Proofs.C02s.
 
 Theorem C02_providers_exist : forall k v q d a s, rps_wf d ->
   candidates_gen k v q d = COk a s ->
@@ -77,3 +82,50 @@ Theorem C02_claimable_reachable : forall cf l v q c k proj user ty v',
   status (snd (step cf (run cf db0 l) (AllocPut v' (cons_in_of c k proj user ty)))) = 204.
 Proof. exact c02_claimable_reachable. Qed.
 Print Assumptions C02_claimable_reachable.
+
+(* ---------------------------------------------------------------------------------------------------------------
+   The candidates of the CODE MODEL.  cap_ok d: on the inventories of d, int(capacity) and floor(capacity) accept the
+   same positive amounts - implied by non-negative capacities (C03w.caps_nonneg_cap_ok) and by non-negative usage
+   (C03w.usage_nonneg_cap_ok), hence an invariant; caps_nonneg itself is NOT one (C02_caps_nonneg_not_invariant). *)
+Theorem C02_code_claimable : forall cf v q d a s c k proj user ty v',
+  RI d -> inv_keys_nodup d -> rps_wf d -> parentless_root d -> cap_ok d -> un_rcs_nodup q ->
+  candidates v q d = COk a s -> In c a -> 28 <= v' -> find_cons d k = None ->
+  status (snd (step cf d (AllocPut v' (cons_in_of c k proj user ty)))) = 204.
+Proof. exact c02_code_claimable. Qed.
+Print Assumptions C02_code_claimable.
+
+(* in every state reached by well-formed requests: a returned candidate, claimed as returned, is accepted *)
+Theorem C02_code_claimable_reachable : forall cf l v q a s c k proj user ty v',
+  reqs_wf l -> un_rcs_nodup q ->
+  candidates v q (run cf db0 l) = COk a s -> In c a -> 28 <= v' -> find_cons (run cf db0 l) k = None ->
+  status (snd (step cf (run cf db0 l) (AllocPut v' (cons_in_of c k proj user ty)))) = 204.
+Proof. exact c02_code_claimable_reachable. Qed.
+Print Assumptions C02_code_claimable_reachable.
+
+(* the claim is a legal request, so the state after it is reachable again *)
+Theorem C02_code_claim_request_wf : forall v q d a s c k proj user ty v',
+  rps_wf d -> parentless_root d -> cap_ok d -> aggs_wf d -> un_rcs_nodup q ->
+  candidates v q d = COk a s -> In c a ->
+  req_wf (AllocPut v' (cons_in_of c k proj user ty)) = true.
+Proof. exact c02_code_claim_request_wf. Qed.
+Print Assumptions C02_code_claim_request_wf.
+
+Theorem C02_code_claim_reachable_after : forall cf l v q a s c k proj user ty v',
+  reqs_wf l -> un_rcs_nodup q -> candidates v q (run cf db0 l) = COk a s -> In c a ->
+  reqs_wf (l ++ [AllocPut v' (cons_in_of c k proj user ty)]).
+Proof. exact c02_code_claim_reachable_after. Qed.
+Print Assumptions C02_code_claim_reachable_after.
+
+(* the (provider, class) keys of a returned candidate are distinct: one allocation row per key *)
+Theorem C02_code_keys_distinct : forall v q d a s c, candidates v q d = COk a s -> In c a -> NoDup (rr_keys (cr_rrs c)).
+Proof. exact code_cand_keys_nodup. Qed.
+Print Assumptions C02_code_keys_distinct.
+
+(* a reachable state with an inventory of negative real capacity (total 1, reserved 2, allocation_ratio 0.5, accepted
+   from 1.26 because int(-0.5) = 0 is not < 0): caps_nonneg is not an invariant, cap_ok is *)
+Theorem C02_caps_nonneg_not_invariant :
+  reqs_wf ng_ops /\ ~ caps_nonneg (run (mkCfg 0 0) db0 ng_ops) /\ cap_ok (run (mkCfg 0 0) db0 ng_ops) /\
+  map (fun i => (i_total i, i_reserved i, cap_trunc i, cap_floor i)) (invs (run (mkCfg 0 0) db0 ng_ops)) = [(1, 2, 0, -1)].
+Proof. exact c02s_caps_nonneg_not_invariant. Qed.
+Print Assumptions C02_caps_nonneg_not_invariant.
+
